@@ -23,7 +23,8 @@ LEVEL = "exploration"
 ENGINE = "engine_harness"
 TECHNIQUE = "Hypothesis-generated methods x tick/control schedules; history invariants on clock deltas vs observed run state"
 RULE = ("Hypothesis draws a method (blocks, waits, watches, timed Pause/Hold) and a schedule of <=60 steps (ticks with "
-        "increments 0/0.05/0.1/1/5 s, user Pause/Unpause/Hold/Unhold/Stop/Start/Restart). Non-trivial = the run has >=1 "
+        "increments 0/0.05/0.1/1/5 s, user Pause/Unpause/Hold/Unhold/Stop/Start/Restart, and faults that pause the run with an "
+        "error - one failing hardware read/write or an injected failing command). Non-trivial = the run has >=1 "
         "tick that begins Paused, >=1 that begins Holding and >=1 Block of the method started (classes report how many had "
         "the pause and the hold while that block was the active one). Distinct = distinct (method, schedule).")
 ASSUMPTIONS = [
@@ -34,7 +35,8 @@ TIERS = {"quick": {"examples": 1200, "budget_s": 100}, "thorough": {"examples": 
 EPS = 1e-9
 
 CFG = G.GenCfg(kinds={"mark": 3, "wait": 4, "block": 6, "watch": 1, "pause": 1, "hold": 1, "quick": 1, "blank": 1},
-               max_depth=3, max_top=5, max_children=3, thresholds=False, base_first="s")
+               max_depth=3, max_top=5, max_children=3, thresholds=False, base_first="s",
+               pause_durs=(0.1, 0.2, 0.3, 0.5, 0.5, 1.0, 1.5, 2.0, None))
 
 INC = st.sampled_from([0.1] * 8 + [0.0, 0.05, 1.0, 5.0])
 # "toggle-pause"/"toggle-hold" are resolved at run time from the engine's reported control state (Pause if not paused ...)
@@ -49,6 +51,11 @@ def cases(draw):
     for _ in range(draw(st.integers(4, 16))):
         for _ in range(draw(st.integers(0, 2))):
             steps.append(["user", draw(USER)])
+        # a fault that pauses the run with an error in whatever state it is in (also Holding): one failing hardware read or
+        # write in the next tick, or an injected command whose exec raises
+        r = draw(st.integers(0, 11))
+        if r == 0:
+            steps.append(["fault", draw(st.sampled_from(["read", "read", "write", "inject-boom"]))])
         for _ in range(draw(st.integers(1, 6))):
             steps.append(["tick", draw(INC)])
     return {"tree": tree, "steps": steps}
@@ -57,8 +64,8 @@ def cases(draw):
 def _valid(case) -> bool:
     try:
         G.render(case["tree"])
-        return all(s[0] in ("tick", "user") for s in case["steps"]) and \
-            all((s[0] == "tick" and isinstance(s[1], (int, float)) and 0 <= s[1] <= 5) or
+        return all(s[0] in ("tick", "user", "fault") for s in case["steps"]) and \
+            all((s[0] == "fault" and s[1] in ("read", "write", "inject-boom")) or (s[0] == "tick" and isinstance(s[1], (int, float)) and 0 <= s[1] <= 5) or
                 (s[0] == "user" and s[1] in ("Pause", "Unpause", "Hold", "Unhold", "Stop", "Start", "Restart", "toggle-pause", "toggle-hold")) for s in case["steps"])
     except Exception:
         return False
@@ -86,6 +93,15 @@ def run_case(case):
         gap: set = set()
         root_open = False
         for step in [["tick", 0.1]] + list(case["steps"]):
+            if step[0] == "fault":
+                if step[1] == "inject-boom":
+                    h.inject("Boom: x")
+                elif step[1] == "read":
+                    h.hw.fail_read = True
+                else:
+                    h.hw.fail_write = True
+                info["faults"] = info.get("faults", 0) + 1
+                continue
             if step[0] == "user":
                 name = step[1]
                 if name == "toggle-pause":
@@ -100,7 +116,11 @@ def run_case(case):
                 continue
             gap = set()
             inc = float(step[1])
+            fault_in_state = prev_state if (h.hw.fail_read or h.hw.fail_write) else None
             o = h.tick(inc)
+            h.hw.fail_read = h.hw.fail_write = False      # a scripted hardware fault lasts one tick
+            if fault_in_state == "Holding" and o.status == "Error":
+                info["error_while_holding"] = info.get("error_while_holding", 0) + 1
             if o.raised is not None:
                 viol("tick-raised:%s" % type(o.raised).__name__, repr(o.raised))
                 break
@@ -200,6 +220,10 @@ def run_shard(col, cfg):
             classes.append("held-in-block")
         if info["block_events"]:
             classes.append("has-block-events")
+        if info.get("faults"):
+            classes.append("has-fault")
+        if info.get("error_while_holding"):
+            classes.append("error-pause-began-while-holding")
         kinds = G.count_kinds(case["tree"])
         if kinds.get("_depth", 0) >= 2:
             classes.append("nested")
